@@ -83,6 +83,7 @@ UNWRAP_OK = {
 UNWRAP_SOME = {"std::option::Option::unwrap", "std::option::Option::expect"}
 CLONE = {"std::clone::Clone::clone", "std::borrow::ToOwned::to_owned"}
 TAKE = {"std::option::Option::take", "std::mem::take"}
+TRY_LOCKS = {"std::sync::Mutex::try_lock", "std::sync::RwLock::try_read", "std::sync::RwLock::try_write"}
 LOCKS = {"std::sync::Mutex::lock", "std::sync::Mutex::try_lock", "std::sync::RwLock::read", "std::sync::RwLock::write", "std::sync::RwLock::try_read", "std::sync::RwLock::try_write"}
 MAPERR = {"std::result::Result::map_err"}
 MAPOK = {"std::result::Result::map", "std::option::Option::map"}
@@ -125,7 +126,7 @@ def mk_field(base, name):
 
 
 def mk_vfield(base, variant, name):
-    if base[0] == "lockres":
+    if base[0] in ("lockres", "trylockres"):
         # Ok(guard) | Err(PoisonError(guard)): either way a guard of the same mutex; the guard
         # dereferences to the mutex content
         return ("wrap", "Guard", base[1])
@@ -222,6 +223,8 @@ def term_str(t, depth=0):
         return "ok(%s)" % term_str(t[1], d)
     if k == "lockres":
         return "lock(%s)" % term_str(t[1], d)
+    if k == "trylockres":
+        return "try_lock(%s)" % term_str(t[1], d)
     if k == "mapped":
         return "mapped(%s, %s)" % (term_str(t[1], d), term_str(t[2], d))
     if k == "over":
@@ -251,7 +254,7 @@ def subterms(t, seen=None):
     elif k in ("maperr", "mapped", "mapok"):
         yield from subterms(t[1])
         yield from subterms(t[2])
-    elif k in ("resok", "lockres", "trybranch"):
+    elif k in ("resok", "lockres", "trylockres", "trybranch"):
         yield from subterms(t[1])
     elif k == "over":
         yield from subterms(t[1])
@@ -568,7 +571,8 @@ class BodyProv:
             return ("call", (self.body.path, bb), "<indirect>")
         ck = ckey(fn)
         if ck in LOCKS and term["args"]:
-            return ("lockres", self.operand_term(term["args"][0], bb, "term", stack))
+            # a try_lock's Err is also "somebody else holds it": not a poisoning-only result
+            return ("trylockres" if ck in TRY_LOCKS else "lockres", self.operand_term(term["args"][0], bb, "term", stack))
         if ck in TRYBRANCH and term["args"]:
             return mk_trybranch(self.operand_term(term["args"][0], bb, "term", stack))
         if ck in FROMRESIDUAL and term["args"]:
